@@ -295,13 +295,14 @@ def solve_model(m, solver='auto'):
     return m.get()
 
 
-def run_difftest(ctx, script, n, component):
+def run_difftest(ctx, script, n, component, args=None):
     """run one of harness/difftests/*.py (real rsome vs the Lean driver, exact comparison) as a correspondence"""
     import re
     seed = int(ctx.rng.integers(2 ** 31))
     path = os.path.join(VERIF, 'harness', 'difftests', script)
     env = dict(os.environ, RSOMEV_LEAN_DIR=LEAN_DIR, RSOME_REPO=REPO)
-    p = subprocess.run(['/venv/bin/python', path, str(seed), str(n)], capture_output=True, text=True, timeout=3600, env=env)
+    argv = [str(a) for a in args] if args is not None else [str(seed), str(n)]
+    p = subprocess.run(['/venv/bin/python', path] + argv, capture_output=True, text=True, timeout=3600, env=env)
     m = re.search(r'cases (\d+) mismatches (\d+)', p.stdout)
     if not m:
         raise LeanError(f'difftest {script} produced no summary: {p.stdout[-500:]} {p.stderr[-1500:]}')
